@@ -153,3 +153,32 @@ def callable_parts():
         out.append(("list", None, c, None))
         out.append(("mol", None, None, c, None))
     return out
+
+
+# ---- combinations that repeat one callable with two different arguments (the spec key of both operands is the same)
+_REP2 = {"equal_to": ((1,), (2,)), "not_equal_to": ((1,), (2,)), "less_than": ((5,), (3,)), "greater_than": ((0,), (1,)),
+         "in_": (([1, "a"],), ([2, "b"],)), "not_in": (([1],), ([2, "a"],)), "in_range": ((0, 2), (1, 5)),
+         "is_instance": ((int,), (str,))}
+
+
+def repeated_leaf_pairs(kind):
+    cls = {"value": "Value", "key": "Key", "index": "Index"}[kind]
+    out = []
+    for call, (a, b) in _REP2.items():
+        if kind == "index" and call == "is_instance":
+            continue
+        for op in ("and", "or", "xor"):
+            out.append((op, L(cls, call, *a), L(cls, call, *b)))
+        out.append(("and", ("and", L(cls, call, *a), L(cls, "truthy")), L(cls, call, *b)))
+    return out
+
+
+def repeated_callable_parts():
+    out = []
+    for c in repeated_leaf_pairs("key"):
+        out += [("map", c, None, None), ("mol", c, None, None, None)]
+    for c in repeated_leaf_pairs("index"):
+        out += [("list", c, None, None), ("mol", None, c, None, None)]
+    for c in repeated_leaf_pairs("value"):
+        out += [("map", None, c, None), ("list", None, c, None), ("mol", None, None, c, None)]
+    return out
